@@ -15,6 +15,9 @@ Inductive sev :=
 | SHandlerDone (id : nat)                     (* the local handler returned *)
 | SDeliver (uid : N) (id : nat) (v : N)       (* a SurveyResponse{Id: id} from node uid handed to the control handler *)
 | SCancel (id : nat)                          (* the survey's context is cancelled *)
+| SDefaultDeadline (id : nat)                 (* a survey called with a context WITHOUT deadline: the library's own
+                                                 default deadline (defaultSurveyTimeout) has passed *)
+| SHang (id : nat)                            (* ... and the survey did not return within the default deadline + 3 s *)
 | SReturn (id : nat) (res : list (N * N)) (err : bool) (prompt : bool).
                                               (* Survey returned: results sorted by uid, error <> nil, returned within the bound *)
 
@@ -49,7 +52,8 @@ Fixpoint s_run (st : nst) (evs : list sev) : bool :=
       | SLocal id => match sstep st (LLocal id) with Some st1 => s_run (drain 20 st1 id) evs' | None => false end
       | SHandlerDone id => match sstep st (LHandlerDone id) with Some st1 => s_run (drain 20 st1 id) evs' | None => false end
       | SDeliver uid id v => match sstep st (LDeliver uid id v) with Some st1 => s_run (drain 20 st1 id) evs' | None => false end
-      | SCancel id => match sstep st (LCancel id) with Some st1 => s_run st1 evs' | None => false end
+      | SCancel id | SDefaultDeadline id => match sstep st (LCancel id) with Some st1 => s_run st1 evs' | None => false end
+      | SHang _ => false
       | SReturn id res err _ =>
           let st0 := match sstep st (LDeadline id) with Some st1 => st1 | None => st end in
           match sstep st0 (LReturn id) with
@@ -126,11 +130,12 @@ Fixpoint o_walk (next : nat) (svs : list (nat * osv)) (evs : list sev) : bool :=
                                               (o_cancelled s) (o_returned s) (o_local s)) :: svs) evs'
           | None => o_walk next svs evs'        (* a foreign id: must simply be ignored *)
           end
-      | SCancel id =>
+      | SCancel id | SDefaultDeadline id =>
           match ofind svs id with
           | Some s => o_walk next ((id, mkOsv (o_num s) (o_got s) true (o_returned s) (o_local s)) :: svs) evs'
           | None => false
           end
+      | SHang _ => false        (* "or the deadline passed": a survey must terminate *)
       | SReturn id res err prompt =>
           match ofind svs id with
           | Some s =>
